@@ -231,9 +231,34 @@ func genPrivate(b *builder, c *corpus, nSites int) {
 	if b.r.chance(0.5) {
 		b.add(t, b.backendOp(pick(b.r, backendKinds), m))
 	}
-	b.add(t, proto.Op{Kind: pick(b.r, []string{proto.OpCompact, proto.OpInline}), Mod: m})
+	work := m
+	if b.r.chance(0.5) {
+		// the passes run on an ir.CloneModule copy; the original stays in use
+		work = b.nextObj
+		b.nextObj++
+		b.progOf[work] = p
+		b.add(t, proto.Op{Kind: proto.OpClone, Mod: m, Dst: work})
+	}
+	passOp := func() proto.Op {
+		if b.r.chance(0.3) {
+			return proto.Op{Kind: proto.OpInline, Mod: work}
+		}
+		// a drawn pipeline of the exported IR passes
+		all := []string{"unused", "types", "reorder", "constants", "expressions", "dedup"}
+		ps := []string{"unused"}
+		for _, x := range shuffled(b.r, all[1:]) {
+			if b.r.chance(0.4) {
+				ps = append(ps, x)
+			}
+		}
+		return proto.Op{Kind: proto.OpCompact, Mod: work, Passes: ps}
+	}
+	b.add(t, passOp())
+	if b.r.chance(0.4) {
+		b.add(t, passOp())
+	}
 	for i := 0; i < 1+b.r.intn(3); i++ {
-		b.add(t, b.backendOp(pick(b.r, backendKinds), m))
+		b.add(t, b.backendOp(pick(b.r, backendKinds), pick(b.r, []int{m, work})))
 	}
 	if b.r.chance(0.5) {
 		// somebody else works on their own module meanwhile
@@ -516,7 +541,9 @@ func pickFamily(r *rng, fams []family) family {
 // replay file needs nothing but the scenario).
 // ---------------------------------------------------------------------------
 
-func isCreator(k string) bool { return k == proto.OpLower || k == proto.OpResolve }
+func isCreator(k string) bool {
+	return k == proto.OpLower || k == proto.OpResolve || k == proto.OpClone
+}
 func isMutator(k string) bool {
 	return k == proto.OpCompact || k == proto.OpInline || k == proto.OpResolveInPlace
 }
@@ -554,7 +581,7 @@ func objChain(sc *proto.Scenario, obj int, before proto.Ref, depth int) []proto.
 	}
 	var chain []proto.Ref
 	cop := sc.Tasks[creator.Task][creator.Op]
-	if cop.Kind == proto.OpResolve {
+	if cop.Kind == proto.OpResolve || cop.Kind == proto.OpClone {
 		chain = objChain(sc, cop.Mod, *creator, depth+1)
 	}
 	chain = append(chain, *creator)
